@@ -24,7 +24,13 @@ import (
 	"os"
 	"strings"
 
+	"go/token"
+	"sort"
+
 	"verif/harness/internal/gtypes"
+	"verif/harness/internal/hutil"
+
+	"github.com/quasilyte/go-ruleguard/ruleguard"
 
 	"github.com/quasilyte/go-ruleguard/ruleguard/typematch"
 )
@@ -805,6 +811,7 @@ type out struct {
 	Panics   []string `json:"panics"`
 	Tried    int      `json:"assignments_tried"`
 	Unsup    string   `json:"unsupported"`
+	Engine   *engOut  `json:"engine,omitempty"`
 	Error    string   `json:"error,omitempty"`
 }
 
@@ -850,6 +857,7 @@ func main() {
 	nrand := flag.Int("rand", 40, "number of random type trees (each yields mutants and several patterns)")
 	depth := flag.Int("depth", 3, "max depth")
 	dump := flag.Bool("dumpsrc", false, "print generated source")
+	engN := flag.Int("engine", 40, "number of patterns for the engine-level section (0 = off)")
 	flag.Parse()
 	o := out{Mode: os.Getenv("GODEBUG"), Seed: *seed}
 	enc := json.NewEncoder(os.Stdout)
@@ -862,11 +870,6 @@ func main() {
 
 	// ---- types and patterns
 	typeExprs := append([]string{}, fixedTypes...)
-	type patCase struct {
-		str string
-		exp string
-		px  *px
-	}
 	var pats []patCase
 	for _, s := range fixedPats {
 		pats = append(pats, patCase{str: s})
@@ -892,6 +895,19 @@ func main() {
 		fmt.Fprintf(&sb, "\tV%03d %s\n", i, e)
 	}
 	sb.WriteString(")\n")
+	// engine-level section: probe functions per selected pattern (Type.Is, Type.Underlying().Is, list capture)
+	engPats := selectEnginePats(pats0(pats), *engN)
+	engTypes := len(typeExprs)
+	if engTypes > 90 {
+		engTypes = 90
+	}
+	for k := range engPats {
+		fmt.Fprintf(&sb, "\nfunc is%d(interface{})     {}\nfunc uis%d(interface{})    {}\nfunc ls%d(...interface{}) {}\nfunc use%d() {\n", k, k, k, k)
+		for j := 0; j < engTypes; j++ {
+			fmt.Fprintf(&sb, "\tis%d(V%03d)\n\tuis%d(V%03d)\n\tls%d(V%03d, V%03d)\n", k, j, k, j, k, j, (j+1)%engTypes)
+		}
+		fmt.Fprintf(&sb, "\tls%d()\n}\n", k)
+	}
 	if *dump {
 		fmt.Fprintln(os.Stderr, sb.String())
 	}
@@ -991,5 +1007,139 @@ func main() {
 		_ = pi
 	}
 	o.Unsup = ser.Unsupported
+	if len(engPats) > 0 {
+		o.Engine = engineSection(u, orc, engPats, tys[:engTypes], typeExprs[:engTypes])
+	}
 	enc.Encode(o)
+}
+
+// ---- engine level: the same patterns through Where(m["x"].Type.Is(..)), Type.Underlying().Is(..) and a list capture
+
+type engOut struct {
+	LoadErr string              `json:"load_err"`
+	Pats    []string            `json:"pats"`
+	Obs     map[string][]string `json:"obs"`    // "is3" / "uis3" / "ls3" -> reported arguments
+	Oracle  map[string][]string `json:"oracle"` // assignment search on the argument's type (its underlying type; all list elements)
+	Panic   string              `json:"panic"`
+}
+
+type engPat struct {
+	str string
+	px  *px
+}
+
+type patCase struct {
+	str string
+	exp string
+	px  *px
+}
+
+func pats0(ps []patCase) []engPat {
+	var out []engPat
+	for _, p := range ps {
+		out = append(out, engPat{p.str, p.px})
+	}
+	return out
+}
+
+// patterns the loader can take with Import()s whose base names are unambiguous (lib, pool, gen), no finding classes
+func selectEnginePats(ps []engPat, n int) []engPat {
+	var out []engPat
+	for i, p := range ps {
+		if n <= 0 || len(out) >= n {
+			break
+		}
+		if strings.Contains(p.str, "ta.") || strings.Contains(p.str, "tb.") || strings.Contains(p.str, "gen.") || strings.Contains(p.str, "pool.A") {
+			continue
+		}
+		px := p.px
+		if px == nil {
+			px = parseFixed(p.str)
+		}
+		if px == nil {
+			continue
+		}
+		// spread over the catalogue and the random patterns
+		if i%3 == 0 || strings.Contains(p.str, "$*_") && i%2 == 0 {
+			out = append(out, engPat{p.str, px})
+		}
+	}
+	return out
+}
+
+func engineSection(u *gtypes.Universe, orc *oracle, ps []engPat, tys []types.Type, names []string) *engOut {
+	eo := &engOut{Obs: map[string][]string{}, Oracle: map[string][]string{}}
+	var b strings.Builder
+	b.WriteString("package gorules\n\nimport \"github.com/quasilyte/go-ruleguard/dsl\"\n\nfunc c10engine(m dsl.Matcher) {\n")
+	b.WriteString("\tm.Import(`example.com/c10/lib`)\n\tm.Import(`example.com/c10/pool`)\n")
+	for k, p := range ps {
+		eo.Pats = append(eo.Pats, p.str)
+		fmt.Fprintf(&b, "\tm.Match(`is%d($x)`).Where(m[\"x\"].Type.Is(`%s`)).Report(`is%d $x`)\n", k, p.str, k)
+		fmt.Fprintf(&b, "\tm.Match(`uis%d($x)`).Where(m[\"x\"].Type.Underlying().Is(`%s`)).Report(`uis%d $x`)\n", k, p.str, k)
+		fmt.Fprintf(&b, "\tm.Match(`ls%d($*xs)`).Where(m[\"xs\"].Type.Is(`%s`)).Report(`ls%d $$`)\n", k, p.str, k)
+	}
+	b.WriteString("}\n")
+	eng := ruleguard.NewEngine()
+	func() {
+		defer func() {
+			if p := recover(); p != nil {
+				eo.LoadErr = fmt.Sprintf("PANIC: %v", p)
+			}
+		}()
+		if err := eng.Load(&ruleguard.LoadContext{Fset: token.NewFileSet()}, "c10engine.go", strings.NewReader(b.String())); err != nil {
+			eo.LoadErr = err.Error()
+		}
+	}()
+	if eo.LoadErr != "" {
+		return eo
+	}
+	const pp = "example.com/c10/pool"
+	target := &hutil.Target{Fset: u.Fset, File: u.Files[pp], Info: u.Infos[pp], Pkg: u.Pkgs[pp], Path: pp + "/src.go"}
+	reports, pmsg := hutil.Run(eng, target, 0, "", nil)
+	eo.Panic = pmsg
+	for _, r := range reports {
+		f := strings.SplitN(r.Message, " ", 2)
+		arg := ""
+		if len(f) == 2 {
+			arg = f[1]
+		}
+		if strings.HasPrefix(f[0], "ls") { // the whole call was printed: keep the argument list
+			arg = strings.TrimSuffix(arg[strings.Index(arg, "(")+1:], ")")
+		}
+		eo.Obs[f[0]] = append(eo.Obs[f[0]], arg)
+	}
+	for k, p := range ps {
+		var is, uis, ls []string
+		okT := make([]bool, len(tys))
+		for j, t := range tys {
+			okT[j], _ = orc.denotes(p.px, t)
+			if okT[j] {
+				is = append(is, fmt.Sprintf("V%03d", j))
+			}
+			if r, _ := orc.denotes(p.px, t.Underlying()); r {
+				uis = append(uis, fmt.Sprintf("V%03d", j))
+			}
+		}
+		for j := range tys {
+			if okT[j] && okT[(j+1)%len(tys)] {
+				ls = append(ls, fmt.Sprintf("V%03d, V%03d", j, (j+1)%len(tys)))
+			}
+		}
+		ls = append(ls, "") // the empty argument list satisfies the filter vacuously
+		for key, v := range map[string][]string{fmt.Sprintf("is%d", k): is, fmt.Sprintf("uis%d", k): uis, fmt.Sprintf("ls%d", k): ls} {
+			sort.Strings(v)
+			if v == nil {
+				v = []string{}
+			}
+			eo.Oracle[key] = v
+			got := eo.Obs[key]
+			sort.Strings(got)
+			if got == nil {
+				got = []string{}
+			}
+			eo.Obs[key] = got
+		}
+	}
+	_ = names
+	return eo
 }
